@@ -246,10 +246,7 @@ func TestC07ShutdownUnderConnects(t *testing.T) {
 					onlyAccepted = false
 				}
 			}
-			for _, ent := range l { // do not let the leak pile up in the test process
-				fd, _ := strconv.Atoi(strings.Fields(ent)[0])
-				unix.Close(fd)
-			}
+			e.CloseAcceptedLeaks() // do not let the leak pile up in the test process
 			const key = "fd-leak-accept-at-shutdown"
 			msg := fmt.Sprintf("after Run returned (shutdown requested while %d dialers were connecting; %d OnOpen = %d OnClose) %d descriptors are still open: %s", dialers, atomic.LoadInt64(&opens), atomic.LoadInt64(&closes), len(l), strings.Join(l, ", "))
 			switch {
